@@ -19,6 +19,8 @@ import (
 type c20KVJob struct {
 	Store string   `json:"store"`
 	Ops   []string `json:"ops"` // put:k:v | del:k | restart
+	// Alone: no unrelated object is created first, so the sequence starts from (and can return to) the empty store
+	Alone bool `json:"alone,omitempty"`
 }
 
 type kvStore struct {
@@ -190,11 +192,22 @@ func c20KVRun(w0 *kernel.Worker, j *c20KVJob, rep *kernel.Report) (*Fail, error)
 		}
 	}
 	model := map[string]string{}
+	// leave the store as it was found (empty, for the first job of a worker), so that sequences really start from and
+	// return to the empty store
+	defer func() {
+		if !w.Dead() {
+			for _, k := range []string{"a", "b", "other"} {
+				_, _ = st.del(w, ns, k)
+			}
+		}
+	}()
 	// an unrelated object that must never be disturbed
-	if _, err := st.put(w, ns, "other", "1"); err != nil {
-		return die(err)
+	if !j.Alone {
+		if _, err := st.put(w, ns, "other", "1"); err != nil {
+			return die(err)
+		}
+		model["other"] = "1"
 	}
-	model["other"] = "1"
 	for i, op := range j.Ops {
 		parts := strings.Split(op, ":")
 		var resp string
@@ -276,11 +289,12 @@ func c20KV(rep *kernel.Report, budget *kernel.Budget) {
 			for _, s := range []string{"savedqueries", "lookups", "aliases"} {
 				for _, q := range seqs {
 					emit(c20KVJob{Store: s, Ops: q})
+					emit(c20KVJob{Store: s, Ops: q, Alone: true})
 				}
 			}
 		},
 		Run: c20KVRun,
-		Key: func(j *c20KVJob) string { return j.Store + "|" + strings.Join(j.Ops, ",") },
+		Key: func(j *c20KVJob) string { return fmt.Sprintf("%s|%s|%v", j.Store, strings.Join(j.Ops, ","), j.Alone) },
 		Nontrivial: func(j *c20KVJob) bool {
 			seen := map[string]bool{}
 			for _, o := range j.Ops {
